@@ -162,3 +162,34 @@ for _cls, _w in (("MinimizeMeasurable", 1), ("MaximizeMeasurable", -1)):
 CONTRACTS["optimization:Measurable.eval"] = dict(
     schema=schema, make_env=_env_target("Measurable", {"weight": None}), ghost_params={"VAL": "real"}, call_stubs={"self.get_objective_val": "VAL"},
     ensures=[("C15.contribution_is_weight_times_the_summed_output", "result == WEIGHT * VAL")], defined_props=["C15"])
+
+
+# ---- which years enter the objective (C15: "the documented sum of the requested outputs over the requested years"): the head of
+# Measurable.get_objective_val -- a single year selects exactly the time points equal to it, a period [low, high) selects the time points
+# from low (included) up to high (EXCLUDED)
+def _env_years(period):
+    def make(it):
+        from pyvc.interp import PyObjV
+        from pyvc.core import LArr, Opaque
+        from pyvc import source
+
+        n = z3.Int("n_times")
+        it.facts.append(n >= 1)
+        f = z3.Function("time_at", z3.IntSort(), z3.RealSort())
+        tv = LArr(n, lambda i: f(i if z3.is_expr(i) else z3.IntVal(i)), fresh_alloc=False)
+        lo, hi = z3.Real("low"), z3.Real("high")
+        model = PyObjV("Model", source.load("model"), {"t": tv})
+        self = PyObjV("Measurable", source.load("optimization"), {"measurable_name": "x", "pop_names": None, "weight": 1.0, "t": LArr(2, it._list_reader([lo, hi])) if period else LArr(1, lambda i: lo)})
+        return {"self": self, "model": model, "baseline": None, "TV": tv, "n": n, "LOW": lo, "HIGH": hi}
+
+    return make
+
+
+CONTRACTS["optimization:Measurable.get_objective_val#years_of_a_period"] = dict(
+    schema=schema, fragment={"before": "if self.measurable_name in model.progset.programs"}, make_env=_env_years(True),
+    ensures=[("C15.a_period_selects_low_included_to_high_excluded", "len(t_filter) == n and all(t_filter[i] == (LOW <= TV[i] and TV[i] < HIGH) for i in range(n))")],
+    defined_props=["C15"])
+CONTRACTS["optimization:Measurable.get_objective_val#a_single_year"] = dict(
+    schema=schema, fragment={"before": "if self.measurable_name in model.progset.programs"}, make_env=_env_years(False),
+    ensures=[("C15.a_single_year_selects_exactly_that_time_point", "len(t_filter) == n and all(t_filter[i] == (TV[i] == LOW) for i in range(n))")],
+    defined_props=["C15"])
